@@ -101,7 +101,7 @@ def correspond(ctx):
                 c.notes.append(note)
             c.known_demonstrated.append(('C20:baseexception-residue', note))
     # ---- the model: structure of every prog (reference process) and the context machine on the same event sequence
-    items = ['(compile_flag T dce_strict dce_guard %s, %s)' % (cc.cprog(p), cc.cresult(ref['progs'][i]['desc'])) for i, p in enumerate(progs)]
+    items = ['(compile_flag T dce_strict dce_guard sub_guard %s, %s)' % (cc.cprog(p), cc.cresult(ref['progs'][i]['desc'])) for i, p in enumerate(progs)]
     body = 'Eval vm_compute in bad_idx (fun c => result_matches (fst c) (snd c)) cases.'
     bad, errs = fw.check_shards(ctx, 'c20', cc.HEADER, items, body, shard=40)
     for e in errs:
